@@ -88,7 +88,7 @@ class G:
         if c == 9:
             return ("asg", f"adventure_log = {k}")
         if c == 10:
-            return ("asg", f"dungeon_mode({k}) = {r.choice(['DMODE_OPEN', '2', 'X'])}")
+            return ("asg", f"dungeon_mode({k}) = {r.choice(['0', '1', '2', '3'] if self.flat else ['DMODE_OPEN', '2', 'X'])}")
         if c == 11:
             return ("asg", f"{v} = scn[{k}, {r.randrange(4)}]")
         return ("asg", f"{v} = {k}")
@@ -388,3 +388,95 @@ def random_program(rng: random.Random, max_depth: int = 3, n_routines: int | Non
         routines.append((header, body))
     g.finish_jumps()
     return print_program(routines, rng=rng, compact=rng.choice([0.0, 0.0, 0.3]))
+
+
+# ------------------------------------------------------------------------------------- C13 family
+
+def flat_items(g: G, thorough: bool) -> list:
+    """shapes of the flat structured family: plain statements, if-chains, break-terminated switches"""
+    def plain():
+        for _ in range(50):
+            p = g.plain()
+            if not (p[0] == "msw" and not p[3] and p[4] is None):   # a message switch has at least one text
+                return p
+        return g.op()
+
+    def blk(n):
+        return [plain() for _ in range(n)]
+    items = [lambda: g.op(), lambda: g.asg(), plain]
+    for neg in (False, True):
+        for nh in (1, 2):
+            for nb in (0, 1, 2):
+                items.append(lambda neg=neg, nh=nh, nb=nb: ("if", [(neg, [g.cond() for _ in range(nh)], blk(nb))], None))
+                items.append(lambda neg=neg, nh=nh, nb=nb: ("if", [(neg, [g.cond() for _ in range(nh)], blk(nb))], blk(1)))
+                for neg2 in (False, True):
+                    items.append(lambda neg=neg, nh=nh, nb=nb, neg2=neg2: ("if", [(neg, [g.cond() for _ in range(nh)], blk(nb)),
+                                                                                    (neg2, [g.cond()], blk(1))], blk(1) if nb else None))
+    items.append(lambda: ("if", [(False, [g.cond()], blk(1)), (False, [g.cond()], blk(1)), (True, [g.cond()], blk(2))], blk(1)))
+    items.append(lambda: ("if", [(False, [g.cond()], blk(1))], []))
+
+    def sw(ncases, grouped, default, dbody=1):
+        def mk():
+            cases = []
+            hdr = g.swhdr()
+            menu = g.rng.random() < 0.25
+            if menu:
+                hdr = g.rng.choice(["message_SwitchMenu(%d, 1)", "message_SwitchMenu2(%d)"]) % g.n()
+
+            def ch():
+                for _ in range(50):
+                    h = g.cshdr()
+                    if h.startswith("menu") == menu:
+                        return h
+                return f'menu("m{g.n()}")' if menu else str(g.n())
+            for i in range(ncases):
+                if grouped and i == 0:
+                    cases.append((ch(), []))
+                else:
+                    cases.append((ch(), blk(1 + (i % 2)) + [("ctrl", "break")]))
+            if default:
+                cases.append((None, blk(dbody) + [("ctrl", "break")]))
+            return ("switch", hdr, cases)
+        return mk
+    for nc in (1, 2, 3):
+        for grouped in (False, True):
+            if grouped and nc == 1:
+                continue
+            for default in (False, True):
+                items.append(sw(nc, grouped, default))
+    items.append(sw(2, False, True, 0))
+    return items
+
+
+def flat_family(thorough: bool) -> list[str]:
+    rng = random.Random(13)
+    g = G(rng, 0, labels=False, flat=True)
+    items = flat_items(g, thorough)
+    progs = []
+    terms = [("ctrl", "return"), ("ctrl", "end"), ("ctrl", "hold")]
+    for i, a in enumerate(items):
+        progs.append(print_program([("def 0", [a(), terms[i % 3]])]))
+        progs.append(print_program([("def 0", [g.op(), a(), g.op(), terms[(i + 1) % 3]])]))
+    step = 1 if thorough else 3
+    for i, a in enumerate(items):
+        for j, b in enumerate(items):
+            if (i + j) % step:
+                continue
+            progs.append(print_program([("def 0", [a(), b(), terms[(i + j) % 3]])]))
+    if thorough:
+        for i, a in enumerate(items[::3]):
+            for j, b in enumerate(items[::3]):
+                for k, c in enumerate(items[::4]):
+                    progs.append(print_program([("def 0", [a(), b(), c(), terms[(i + j + k) % 3]])]))
+    return progs
+
+
+def flat_random(rng: random.Random, max_items: int = 8) -> str:
+    g = G(rng, 0, labels=False, flat=True)
+    items = flat_items(g, True)
+    routines = []
+    for r in range(rng.choice([1, 1, 2])):
+        body = [rng.choice(items)() for _ in range(rng.randint(1, max_items))]
+        body.append(rng.choice([("ctrl", "return"), ("ctrl", "end"), ("ctrl", "hold")]))
+        routines.append((rng.choice(ROUTINE_KINDS[:4]).format(i=r), body))
+    return print_program(routines, rng=rng, compact=rng.choice([0.0, 0.2]))
